@@ -22,7 +22,15 @@ OBLIGATIONS.append(dict(
     name="C05.d driver handleNewBlock: tracked before processed (non-finalized), processed successfully exactly once after transient failures, cancelled on ErrInconsistentState",
     harness=S + "ZZVerif_C05_Driver", reach=["tracked", "inconsistent"],
     bounds="0..2 transient tracker failures, 0..2 transient store failures, inconsistent or not, finalized or not, any block number and hash"))
+for tip, tiers in ((3, ("quick", "thorough")), (5, ("thorough",))):
+    OBLIGATIONS.append(dict(
+        name="C05.e driver Sync loop across a reorg: chain of %d blocks, every block from an arbitrary fork point replaced (watched events moved, added, removed), the detector reports the "
+             "first tracked replaced block: afterwards the store holds exactly the final chain's blocks with a watched event, in order" % tip,
+        harness=S + "ZZVerif_C05_SyncReorg", params={"TIP": tip}, tiers=tiers, reach=["fork below the reported block", "end"], time_limit_s=1500,
+        bounds="%d blocks, every placement of watched events before and after, every fork point and finalized pointer below it" % tip))
 ASSUMPTIONS = [
+    "C05.e: downloader, store and reorg detector are fakes that answer as C05.a-c / C06 establish (blocks with watched events from the requested block on; first tracked replaced block); "
+    "the downloader goroutine runs to completion when started (it only fills the buffered channel); the notification arrives when everything downloaded has been stored",
     "the syncer starts at most one block beyond the tip the node reports first, and the reported tip never decreases (without this the loop can move its "
     "start block backwards: with start > tip+1 a 'safe zone' iteration reports the tip as processed and continues from tip+1 < start)",
     "a range query returns exactly the blocks with watched logs of the requested range, in order (GetLogs / getEventsByBlockRangeWithRetry: C05.a/b)",
